@@ -641,6 +641,8 @@ RULES = [
     ("C01-R7", "no unreviewed way out of the per-entry loop before the descent", r7),
     ("C01-R8", "every search root is walked (no conditional skip in the loop over the roots)", r8),
     ("X-ROOTS", "root option defaults, Root::new and the per-root reset of parse_roots [shared]", lambda ctx: __import__("extra").root_defaults(ctx)),
+    ("C17-R1", "a failure inside the entry loop costs that entry only: failure branches count, report and continue; no `?` but check_file's [shared with C17]", lambda ctx: __import__("c17").r1(ctx)),
+    ("X-CANON", "util::canonical_path answers with the path resolved by fs::canonicalize (no shortcut for paths that look canonical) [shared]", lambda ctx: __import__("extra2").canonical_path_is_canonical(ctx)),
 ]
 
 EXPLANATION = (
